@@ -20,6 +20,7 @@ import ast
 from .index import AnalysisError, ClassInfo, EnumVal, unparse, NotConst, norm_stmt
 from .values import Top, GE2, HObj, Ref, Exc, State
 from .report import Finding
+from .absint import Interp
 from . import parser_machine as PM
 
 WHAT = {
@@ -32,6 +33,8 @@ WHAT = {
     "P3": "every model element built by the parser receives the current line number; lines are counted before any skip",
     "P5": "table cells are split at pipes not preceded by a backslash and only the escaped pipe is unescaped",
     "P6": "pending tags are consumed: a builder that hands self.tags to a model element rebinds self.tags to a fresh list (no sharing, no carry-over to the next statement)",
+    "P7": "a doc-string ends only at the delimiter that opened it; the lines in between are its text minus the opening indent",
+    "P8": "table cells with pipes survive render (escape_cell) -> parse (split on unescaped pipes, unescape)",
     "E4": "every ParserError raised by the parser carries the current line",
     "E6": "parser terminates: no while loop; only call cycle is action_table <-> action_steps",
 }
@@ -240,6 +243,105 @@ def check_machine(chk, ix, entry, rules, tier="quick", reuse=False):
 # ----------------------------------------------------------------------
 KEYWORD_KINDS = ("feature", "rule", "background", "scenario", "scenario_outline", "examples",
                  "given", "when", "then", "and", "but")
+
+
+def check_docstring_protocol(chk, ix):
+    """P7: a doc-string is closed only by the delimiter that opened it; everything in between is its text, with the
+    opening indent removed.  Parser.action_steps / action_multiline_text evaluated on concrete lines (constant folding)."""
+    chk.rule("P7", WHAT["P7"])
+    pc = ix.cls("behave.parser:Parser")
+    a_steps, a_text = pc.lookup("action_steps"), pc.lookup("action_multiline_text")
+    if a_steps is None or a_text is None:
+        raise AnalysisError("anchor missing: Parser.action_steps / action_multiline_text")
+    dq, sq = '"' * 3, "'" * 3
+    for opener, other in ((dq, sq), (sq, dq)):
+        texts = []
+        stubs = {"Text": lambda i, s_, a, k, n: (texts.append(a[0]), [(s_, "val", "TEXT")])[1],
+                 "model.Text": lambda i, s_, a, k, n: (texts.append(a[0]), [(s_, "val", "TEXT")])[1],
+                 "Parser._normalize_step_name": lambda i, s_, a, k, n: [(s_, "val", None)]}
+        it = Interp(ix, stubs=stubs, name="doc-string protocol")
+        it.int_sat = 1000
+        it.list_cap = 100
+        st = State()
+        st.frames = []
+        step = st.alloc(HObj("StepTok", {"name": "a step", "text": None}, open=True, label="step"))
+        stmt = st.alloc(HObj("StatementTok", {"steps": st.alloc(HObj("list", kind="list", items=[step]))}, label="statement"))
+        me = st.alloc(HObj(pc, {"state": EnumVal("State", "STEPS"), "statement": stmt, "line": 7, "filename": "x.feature",
+                                "lines": st.alloc(HObj("list", kind="list", items=[])), "multiline_start": None,
+                                "multiline_leading": None, "multiline_terminator": None, "variant": "feature"}, label="parser"))
+        script = [(a_steps, "    " + opener), (a_text, "    first line"), (a_text, "    " + other), (a_text, "      indented " + other + " inside"),
+                  (a_text, ""), (a_text, "    last line  "), (a_text, "    " + opener)]
+        want_text = "\n".join(["first line", other, "  indented " + other + " inside", "", "last line"])
+        cur = st
+        closed_at = None
+        for i, (fn, line) in enumerate(script):
+            outs = it.call_function(cur, fn, [line], {}, None, self_val=me)
+            if len(outs) != 1 or outs[0][1] != "val":
+                raise AnalysisError("doc-string protocol not foldable at %r: %r" % (line, [(k, v) for _, k, v in outs][:3]))
+            cur = outs[0][0]
+            if texts and closed_at is None:
+                closed_at = i
+        chk.absorb(it)
+        chk.instance("P7")
+        state = cur.obj(me).fields.get("state")
+        ok = closed_at == len(script) - 1 and texts == [want_text] and getattr(state, "name", None) == "STEPS"
+        if ok:
+            chk.ok("P7", {"opened_by": opener, "contains": other, "text": texts[0]}, nontrivial_key=opener)
+        else:
+            where = "never closed" if closed_at is None else "closed by line %d (%r)" % (closed_at, script[closed_at][1])
+            chk.fail(Finding("P7", a_text.fullname, "opened by %s: %s, text %r" % (opener, where, texts[:1]),
+                             "a doc-string opened by %s that contains %s lines is %s with text %r; expected it to end at the closing %s "
+                             "with text %r" % (opener, other, where, texts[:1], opener, want_text),
+                             file=a_text.file, line=a_text.lineno, stmt="def action_multiline_text"))
+
+
+def check_cell_roundtrip(chk, ix):
+    """P8: the table renderer's cell escaping and the parser's cell splitting agree: a rendered row re-parses to the
+    same cells (cells with pipes, no backslashes/newlines: the parser only ever unescapes the pipe)."""
+    chk.rule("P8", WHAT["P8"])
+    esc = ix.func("behave.model_describe:escape_cell")
+    pc = ix.cls("behave.parser:Parser")
+    a_table = pc.lookup("action_table")
+    rows = [["a|b", "c"], ["|", ""], ["a||b", "x|"], ["|x", "plain"], ["a|b|c"], ["no pipe", "second"]]
+    for cells in rows:
+        it = Interp(ix, name="escape_cell")
+        it.fold_regex = True
+        it.int_sat = 1000
+        it.list_cap = 100
+        st = State()
+        st.frames = []
+        rendered = []
+        for c in cells:
+            outs = it.call_function(st, esc, [c], {}, None)
+            if len(outs) != 1 or outs[0][1] != "val" or not isinstance(outs[0][2], str):
+                raise AnalysisError("escape_cell not foldable on %r: %r" % (c, [(k, v) for _, k, v in outs][:2]))
+            rendered.append(outs[0][2])
+        line = "| " + " | ".join(rendered) + " |"
+        got = []
+        stubs = {"Table": lambda i, s_, a, k, n: (got.append(a[0]), [(s_, "val", "TABLE")])[1],
+                 "model.Table": lambda i, s_, a, k, n: (got.append(a[0]), [(s_, "val", "TABLE")])[1]}
+        it2 = Interp(ix, stubs=stubs, name="action_table")
+        it2.fold_regex = True
+        it2.int_sat = 1000
+        it2.list_cap = 100
+        st = State()
+        st.frames = []
+        me = st.alloc(HObj(pc, {"table": None, "examples": None, "line": 3, "filename": "x.feature", "state": EnumVal("State", "TABLE")}, label="parser"))
+        outs = it2.call_function(st, a_table, [line], {}, None, self_val=me)
+        chk.absorb(it2)
+        chk.instance("P8")
+        if len(outs) != 1 or outs[0][1] != "val" or len(got) != 1:
+            raise AnalysisError("action_table not foldable on %r: %r" % (line, [(k, v) for _, k, v in outs][:2]))
+        s2 = outs[0][0]
+        parsed = got[0]
+        parsed = list(s2.obj(parsed).items) if isinstance(parsed, Ref) else list(parsed) if isinstance(parsed, tuple) else parsed
+        want = [c.strip() for c in cells]
+        if parsed == want:
+            chk.ok("P8", {"cells": cells, "rendered_row": line, "reparsed": parsed}, nontrivial_key=tuple(cells))
+        else:
+            chk.fail(Finding("P8", esc.fullname, "%r -> %r -> %r" % (cells, line, parsed),
+                             "the cells %r are rendered as the row %r, which parses back as %r: the renderer's escaping and the parser's "
+                             "splitting on unescaped pipes disagree" % (cells, line, parsed), file=esc.file, line=esc.lineno, stmt="def escape_cell"))
 
 
 def check_tags_consumed(chk, ix, rule="P6"):
